@@ -363,8 +363,26 @@ func (e *enc) funcRef(f *ssa.Function) Term {
 }
 
 // describeValue gives a stable, source-level description of an SSA value.
+var dbgCache = map[*ssa.Function]map[ssa.Value]string{}
+
 func describeValue(fn *ssa.Function, v ssa.Value) string {
-	return describeWith(nil, v, 0)
+	dbg, ok := dbgCache[fn]
+	if !ok {
+		dbg = map[ssa.Value]string{}
+		for _, b := range fn.Blocks {
+			for _, in := range b.Instrs {
+				if d, ok := in.(*ssa.DebugRef); ok {
+					if id, ok := d.Expr.(*ast.Ident); ok && !d.IsAddr {
+						if _, have := dbg[d.X]; !have {
+							dbg[d.X] = id.Name
+						}
+					}
+				}
+			}
+		}
+		dbgCache[fn] = dbg
+	}
+	return describeWith(dbg, v, 0)
 }
 
 func (x *fx) describe(v ssa.Value) string { return describeWith(x.dbg, v, 0) }
